@@ -378,6 +378,175 @@ def native_order(only=None, extra_subjects=()):
     return None
 
 
+# ----------------------------------------------------------- call sequences (state kept between calls) --
+def _refill(buf, data):
+    buf.seek(0)
+    buf.truncate(0)
+    buf.write(data)
+    buf.seek(0)
+
+
+def _guard_subjects():
+    """Entry points of the guard module itself, as callables over a stream (default limits)."""
+    out = []
+    try:
+        from sharepoint2text.parsing.extractors.util import zip_bomb
+    except Exception:  # noqa
+        return out
+    benign = _zip_bytes([("a.txt", b"hello world"), ("d/", b""), ("b/c.xml", b"<x>1</x>")])
+    if hasattr(zip_bomb, "open_zipfile"):
+        def use_open(buf):
+            zf = zip_bomb.open_zipfile(buf, source="replay")
+            try:
+                for nm in zf.namelist()[:2]:
+                    if not nm.endswith("/"):
+                        zf.read(nm)
+            finally:
+                zf.close()
+        out.append(("zip_bomb.py::open_zipfile", "synthetic three-member zip", use_open, benign))
+    if hasattr(zip_bomb, "validate_zip_bytesio"):
+        out.append(("zip_bomb.py::validate_zip_bytesio", "synthetic three-member zip",
+                    (lambda buf: zip_bomb.validate_zip_bytesio(buf, source="replay")), benign))
+    return out
+
+
+def native_sequences(only=None):
+    """Call SEQUENCES on every ZIP-container entry point: the decision for a container must not depend on what the same
+    stream object (or an earlier object at the same address, or an earlier call with other limits) held before.
+    recycle: accept a well-formed document from a buffer, rewrite the SAME buffer object with a bomb, call again -> must be
+    rejected with the zip-bomb error before any member access; reverse: bomb first, then the well-formed document in the same
+    buffer -> must be accepted; address reuse: a fresh buffer allocated after the first one died; limits: lenient limits
+    first, then strict limits on the same buffer."""
+    import gc
+    stream_subjects = _guard_subjects() + _stream_subjects()
+    for target, rel, call, data in stream_subjects:
+        if only and not any(o in target for o in only):
+            continue
+        try:
+            bomb = _with_bomb_member(data)
+        except Exception:  # noqa
+            continue
+        plans = (("recycled buffer: well-formed document, then the same BytesIO rewritten with a bomb member", (data, bomb), "same"),
+                 ("recycled buffer: bomb first, then the same BytesIO rewritten with the well-formed document", (bomb, data), "same"),
+                 ("a fresh BytesIO allocated after the first one was freed: well-formed document, then a bomb", (data, bomb), "fresh"))
+        for label, (first, second), mode in plans:
+            with Monitor() as mon:
+                buf = io.BytesIO()
+                _refill(buf, first)
+                r1 = _run(call, buf)
+                if mode == "same":
+                    _refill(buf, second)
+                else:
+                    del buf
+                    gc.collect()
+                    buf = io.BytesIO(second)
+                n_before = len(mon.violations)
+                r2 = _run(call, buf)
+            want2 = "ExtractionZipBombError" if second is bomb else "returned"
+            want1 = "ExtractionZipBombError" if first is bomb else "returned"
+            if r1 != want1:
+                break          # the single-call behaviour is not what this scope is about (native_order reports it)
+            bad_access = mon.violations[n_before:]
+            if r2 != want2 or bad_access:
+                obs = f"second call ended with {r2}"
+                if bad_access:
+                    obs += f"; member `{bad_access[0][1]}` opened on a container that was never validated"
+                return {"target": target, "inputs": {"fixture": rel, "sequence": label, "first_call": r1},
+                        "expected": f"second call: {want2}, no member access before validation", "observed": obs}
+    # limits are part of the decision: lenient first, strict second on the same buffer
+    try:
+        from sharepoint2text.parsing.extractors.util import zip_bomb
+        data = _zip_bytes([("a.txt", b"\0" * 200000)])
+        lenient = zip_bomb.ZipBombLimits(max_entry_compression_ratio=1e9, max_total_compression_ratio=1e9)
+        strict = zip_bomb.ZipBombLimits(max_entry_compression_ratio=2.0)
+        for name in ("open_zipfile", "validate_zip_bytesio"):
+            fn = getattr(zip_bomb, name, None)
+            if fn is None or (only and not any(o in "zip_bomb.py::" + name for o in only)):
+                continue
+
+            def go(buf, lim, fn=fn):
+                r = fn(buf, limits=lim, source="replay")
+                if r is not None and hasattr(r, "close"):
+                    r.close()
+            buf = io.BytesIO(data)
+            r1 = _run(go, buf, lenient)
+            r2 = _run(go, buf, strict)
+            if r1 == "returned" and r2 != "ExtractionZipBombError":
+                return {"target": f"zip_bomb.py::{name}", "inputs": {"sequence": "same BytesIO: lenient limits (ratio 1e9), then entry ratio limit 2",
+                                                                       "container": "one 200000-byte all-zero member"},
+                        "expected": "second call: ExtractionZipBombError", "observed": f"second call ended with {r2}"}
+    except Exception:  # noqa
+        pass
+    return None
+
+
+def _stream_subjects():
+    """The entry points of _subjects() as callables over a caller-owned stream (the object identity matters here)."""
+    import importlib
+    out = []
+    for modname, fn, fixtures in EXTRACTORS:
+        try:
+            f = getattr(importlib.import_module("sharepoint2text.parsing.extractors." + modname), fn)
+        except Exception:  # noqa
+            continue
+        data = _fixture(fixtures[0])
+        if data is not None:
+            out.append((f"{modname}.py::{fn}", "tests/resources/" + fixtures[0],
+                        (lambda buf, f=f, rel=fixtures[0]: f(buf, rel.split("/")[-1])), data))
+    odt = _fixture("open_office/sample_document.odt")
+    if odt is not None:
+        try:
+            from sharepoint2text.parsing.extractors.util import encryption
+            if hasattr(encryption, "is_odf_encrypted"):
+                out.append(("encryption.py::is_odf_encrypted", "tests/resources/open_office/sample_document.odt",
+                            (lambda buf: encryption.is_odf_encrypted(buf)), odt))
+        except Exception:  # noqa
+            pass
+        try:
+            from sharepoint2text.parsing.extractors.util.zip_context import ZipContext
+
+            def use_context(buf):
+                ctx = ZipContext(buf)
+                try:
+                    for nm in sorted(ctx.namelist)[:2]:
+                        if not nm.endswith("/"):
+                            ctx.read_bytes(nm)
+                finally:
+                    ctx.close()
+            out.append(("zip_context.py::ZipContext", "tests/resources/open_office/sample_document.odt", use_context, odt))
+        except Exception:  # noqa
+            pass
+    return out
+
+
+def predicate_sequences():
+    """validate_zipfile itself: the same container object judged twice with different directories in between."""
+    L = {"max_entries": 3, "total": 100, "single": 60, "total_ratio": 2, "entry_ratio": 3}
+    from sharepoint2text.parsing.extractors.util import zip_bomb
+    from sharepoint2text.parsing.exceptions import ExtractionZipBombError
+    lim = zip_bomb.ZipBombLimits(max_entries=3, max_total_uncompressed_bytes=100, max_single_uncompressed_bytes=60,
+                                 max_total_compression_ratio=2.0, max_entry_compression_ratio=3.0)
+    good, bad = [(4, 4, False)], [(50, 1, False)]
+    for first, second in ((good, bad), (bad, good)):
+        z = FakeZip(first)
+        outs = []
+        for ent in (first, second):
+            z._e = FakeZip(ent)._e
+            try:
+                zip_bomb.validate_zipfile(z, limits=lim, source="replay")
+                outs.append("accepted")
+            except ExtractionZipBombError:
+                outs.append("rejected")
+            except Exception as e:  # noqa
+                outs.append(f"other:{type(e).__name__}")
+        want = ["rejected" if spec_reject_py(e, L) else "accepted" for e in (first, second)]
+        if outs != want:
+            return {"target": "zip_bomb.py::validate_zipfile", "inputs": {"sequence": "same container object, directory replaced between the calls",
+                                                                         "entries": [first, second], "limits": L},
+                    "expected": want, "observed": outs}
+    return None
+
+
 def _dirflag():
     """Directory flag: must agree with ZipInfo.is_dir() of the real library."""
     import zipfile
@@ -461,6 +630,12 @@ def _family(req):
 def find(req):
     tried = 0
     fam, hint = _family(req)
+    if fam == "sequence":
+        r = native_sequences() or predicate_sequences()
+        if r is not None:
+            r.update(reproduced=True, found_by="call sequences over recycled / re-allocated buffers")
+            return r
+        return {"reproduced": False, "note": "no entry point lets an earlier call on the same buffer change its decision"}
     if fam in ("order", "propagate"):
         only = None
         if fam == "propagate":
@@ -468,13 +643,14 @@ def find(req):
             mine = [t for (t, _r, _c, _d) in _subjects() if any(n in t for n in names)]
             only = names if mine else None
         extra = _hinted_subjects(hint.get("targets")) if isinstance(hint, dict) else []
-        r = (native_order(None, extra) if extra else None) or native_order(only) or (native_order() if only else None) or native_extractors()
+        r = (native_order(None, extra) if extra else None) or native_order(only) or (native_order() if only else None) or native_extractors() \
+            or native_sequences(only if fam == "propagate" else None) or (native_sequences() if fam == "propagate" and only else None)
         if r is not None:
             r.update(reproduced=True, found_by="runtime event monitor over the ZIP-container entry points")
             return r
         return {"reproduced": False, "note": "every ZIP-container entry point validates before the first member access and "
                                              "answers a bomb member with ExtractionZipBombError"}
-    r = native_wrappers() if fam == "all" else _dirflag()
+    r = (native_wrappers() or native_sequences() or predicate_sequences()) if fam == "all" else (_dirflag() or predicate_sequences())
     if r is not None:
         r.update(reproduced=True, found_by="native wrapper cases")
         return r
